@@ -386,42 +386,45 @@ class World:
     def fn(self, name, impl, flavour="def"):
         w = self
 
-        def body(args):
+        def body(args, kw=None):
+            if kw:
+                w.use(("call", name) + tuple(args) + (("kw",) + tuple(sorted(kw)),))
+                return impl(*args, **kw)
             w.use(("call", name) + tuple(args))
             return impl(*args)
 
         if self.mode == "s" or flavour == "def":
 
-            def f(*args):
-                return body(args)
+            def f(*args, **kw):
+                return body(args, kw)
 
             return f
         if flavour == "adef":
 
-            async def f(*args):
+            async def f(*args, **kw):
                 for _ in range(w.fn_susp):
                     await Suspend(w)
-                return body(args)
+                return body(args, kw)
 
             return f
         if flavour == "partial":
 
-            async def f0(_dummy, *args):
+            async def f0(_dummy, *args, **kw):
                 for _ in range(w.fn_susp):
                     await Suspend(w)
-                return body(args)
+                return body(args, kw)
 
             return functools.partial(f0, None)
         if flavour == "obj":
 
-            async def f1(*args):
+            async def f1(*args, **kw):
                 for _ in range(w.fn_susp):
                     await Suspend(w)
-                return body(args)
+                return body(args, kw)
 
             class CallObj:
-                def __call__(self, *args):
-                    return f1(*args)
+                def __call__(self, *args, **kw):
+                    return f1(*args, **kw)
 
             return CallObj()
         if flavour == "defaw":
@@ -436,8 +439,8 @@ class World:
                         yield from Suspend(w).__await__()
                     return self.value
 
-            def f2(*args):
-                return Ready(body(args))
+            def f2(*args, **kw):
+                return Ready(body(args, kw))
 
             return f2
         raise HarnessError("callable flavour %r" % (flavour,))
